@@ -55,6 +55,8 @@ type caseDesc struct {
 	Listeners    int         `json:"listeners,omitempty"` // number of BeforeChange listeners (0 with BeforeChange = 1)
 	NoOnChange   bool        `json:"no_on_change,omitempty"`    // no OnChange listener is registered at all
 	OnChangeMore int         `json:"on_change_more,omitempty"`  // OnChange listeners beyond the first
+	Hooks        bool        `json:"hooks,omitempty"`           // mockstore: OnExists/OnValue/OnCreate/OnUpdate/OnDelete set to functions with the default behaviour
+	Foreign      string      `json:"foreign_entry,omitempty"`   // badgerstore: raw bytes put under id "a" behind the store's back (directed scenario)
 	NewID        bool        `json:"newid,omitempty"`
 	Txns         []txnDesc   `json:"txns,omitempty"`       // sequential history
 	Goroutines   [][]txnDesc `json:"goroutines,omitempty"` // concurrent history: one list per goroutine
@@ -442,6 +444,9 @@ func newRig(cd caseDesc, db *badger.DB) *rig {
 		if cd.NewID {
 			st.NewID = r.newID
 		}
+		if cd.Hooks {
+			installHooks(st)
+		}
 		for k := 1; k <= cd.noc(); k++ {
 			k := k
 			st.OnChange(func(id string, before, after interface{}) { r.onChange(k, id, before, after) })
@@ -449,6 +454,45 @@ func newRig(cd caseDesc, db *badger.DB) *rig {
 		r.st = st
 	}
 	return r
+}
+
+// installHooks sets every override hook of a mockstore to a function that does what the
+// store does by default, so that the hook branches of the store run with the same model.
+func installHooks(st *mockstore.Store) {
+	st.OnExists = func(s *mockstore.Store, id string) bool { _, ok := s.Resources[id]; return ok }
+	st.OnValue = func(s *mockstore.Store, id string) (interface{}, error) {
+		v, ok := s.Resources[id]
+		if !ok {
+			return nil, store.ErrNotFound
+		}
+		return v, nil
+	}
+	st.OnCreate = func(s *mockstore.Store, id string, v interface{}) error {
+		if _, ok := s.Resources[id]; ok {
+			return store.ErrDuplicate
+		}
+		if s.Resources == nil {
+			s.Resources = map[string]interface{}{}
+		}
+		s.Resources[id] = v
+		return nil
+	}
+	st.OnUpdate = func(s *mockstore.Store, id string, v interface{}) (interface{}, error) {
+		before, ok := s.Resources[id]
+		if !ok {
+			return nil, store.ErrNotFound
+		}
+		s.Resources[id] = v
+		return before, nil
+	}
+	st.OnDelete = func(s *mockstore.Store, id string) (interface{}, error) {
+		before, ok := s.Resources[id]
+		if !ok {
+			return nil, store.ErrNotFound
+		}
+		delete(s.Resources, id)
+		return before, nil
+	}
 }
 
 // observed outcome of one call
@@ -459,6 +503,7 @@ type obs struct {
 	cls  string
 	cbs  []cbRec
 	bcs  []bcRec
+	idAfter string // ID() of the transaction right after the call
 }
 
 func classify(err error) (string, string) {
@@ -498,6 +543,7 @@ func (r *rig) call(txn interface{}, id string, o opDesc) (ob obs) {
 		r.mu.Unlock()
 		ob.cbs = a.cbs
 		ob.bcs = a.bcs
+		ob.idAfter = txn.(store.ReadTxn).ID()
 		// every further OnChange listener sees what the first one saw, in registration order
 		n := r.cd.noc()
 		for i, k := range a.ocSeq {
@@ -561,6 +607,9 @@ func (r *rig) runTxn(t txnDesc, gor int, yield bool) txnRun {
 		txn = r.st.Read(t.ID)
 	}
 	tr.start = atomic.AddInt64(&clock, 1)
+	if got := txn.(store.ReadTxn).ID(); got != t.ID {
+		r.note(fmt.Sprintf("ID() of a fresh transaction on %q returned %q", t.ID, got))
+	}
 	for _, o := range t.Ops {
 		if yield {
 			runtime.Gosched()
@@ -573,6 +622,10 @@ func (r *rig) runTxn(t txnDesc, gor int, yield bool) txnRun {
 	tr.end = atomic.AddInt64(&clock, 1)
 	if err := txn.(store.ReadTxn).Close(); err != nil {
 		r.note("Close returned " + err.Error())
+	}
+	// Close on a closed transaction returns an error and must not release the lock a second time
+	if err := txn.(store.ReadTxn).Close(); err == nil {
+		r.note(fmt.Sprintf("second Close of a transaction on %q returned nil", t.ID))
 	}
 	return tr
 }
@@ -623,7 +676,7 @@ func opTerm(cd caseDesc, ob obs) string {
 	for i, c := range ob.cbs {
 		cbs[i] = fmt.Sprintf("(%s,%s,%s)", B(c.id), optS(c.before), optS(c.after))
 	}
-	return fmt.Sprintf("IO %s %s %s %s", op, ob.res, List(cbs), bcTerms(ob.bcs))
+	return fmt.Sprintf("IO %s %s %s %s %s", op, ob.res, List(cbs), bcTerms(ob.bcs), B(ob.idAfter))
 }
 
 func bcTerms(bcs []bcRec) string {
@@ -687,6 +740,20 @@ func openScratch() *scratch {
 		panic(err)
 	}
 	return &scratch{dir, db, opts}
+}
+
+// reopenReadOnly closes the database and opens it again read-only: reads work, every write fails in badger.
+func (s *scratch) reopenReadOnly() {
+	if err := s.db.Close(); err != nil {
+		panic(err)
+	}
+	o := s.opts
+	o.ReadOnly = true
+	db, err := badger.Open(o)
+	if err != nil {
+		panic(err)
+	}
+	s.db = db
 }
 
 func (s *scratch) close() {
@@ -868,6 +935,72 @@ func runConcurrent(cd caseDesc, sc *scratch) result {
 	return res
 }
 
+// ---- a stored entry the store cannot decode (put under the key behind the store's back) ----
+// What the unchanged code does: Value returns the decoder's error (not not-found), Exists is
+// false, Update and Delete fail with that error before any listener runs and change nothing,
+// Create says duplicate (the key exists); the raw entry stays as it was.
+func runForeign(cd caseDesc, sc *scratch) result {
+	sc.wipe()
+	r := newRig(cd, sc.db)
+	res := result{dist: map[string]int{"foreign_entry": 1}}
+	key := []byte("a")
+	if cd.Prefix != "" {
+		key = []byte(cd.Prefix + ".a")
+	}
+	raw := func() string {
+		var out string
+		sc.db.View(func(txn *badger.Txn) error {
+			it, err := txn.Get(key)
+			if err != nil {
+				out = "<" + err.Error() + ">"
+				return nil
+			}
+			b, _ := it.ValueCopy(nil)
+			out = string(b)
+			return nil
+		})
+		return out
+	}
+	if err := sc.db.Update(func(txn *badger.Txn) error { return txn.Set(key, []byte(cd.Foreign)) }); err != nil {
+		panic(err)
+	}
+	bad := func(s string) {
+		res.impl = append(res.impl, ImplViolation{What: "undecodable stored entry: " + s, Desc: cd, Tags: []string{"foreign"}})
+	}
+	expect := func(ob obs, what string, ok func(obs) bool) {
+		if !ok(ob) {
+			bad(fmt.Sprintf("%s gave %s", what, ob.cls))
+		}
+		if len(ob.cbs) != 0 {
+			bad(what + " ran OnChange")
+		}
+		if raw() != cd.Foreign {
+			bad(fmt.Sprintf("%s changed the entry to %q", what, raw()))
+		}
+	}
+	isErr := func(ob obs) bool { return strings.HasPrefix(ob.cls, "other:") }
+	w := r.st.Write("a")
+	expect(r.call(w, "a", opDesc{K: "value"}), "Value", isErr)
+	expect(r.call(w, "a", opDesc{K: "exists"}), "Exists", func(ob obs) bool { return ob.res == "(RBool false)" })
+	up := r.call(w, "a", opDesc{K: "update", N: 1})
+	expect(up, "Update", isErr)
+	if len(up.bcs) != 0 {
+		bad("Update called BeforeChange although the before-value could not be read")
+	}
+	expect(r.call(w, "a", opDesc{K: "delete"}), "Delete", isErr)
+	expect(r.call(w, "a", opDesc{K: "create", N: 1}), "Create", func(ob obs) bool { return ob.cls == "duplicate" })
+	w.Close()
+	rd := r.st.Read("a")
+	expect(r.call(rd, "a", opDesc{K: "value"}), "Value in a read transaction", isErr)
+	rd.Close()
+	sc.wipe()
+	for _, n := range r.impl {
+		res.impl = append(res.impl, ImplViolation{What: n, Desc: cd})
+	}
+	res.c = Case{Term: caseTerm(cd, nil, nil), Desc: cd}
+	return res
+}
+
 // ---- isolation: many goroutines, each the only user of its own id ----
 //
 // Nobody but the owner touches an id, so whatever the interleaving, a read of the
@@ -1037,8 +1170,8 @@ func (ir *isoRun) readBack(sl *isoSlot, rt store.ReadTxn, where string, sample b
 	}
 	if sample {
 		sl.sample = append(sl.sample,
-			fmt.Sprintf("IO (OValue %s) %s [] []", B(sl.id), res),
-			fmt.Sprintf("IO (OExists %s) (RBool %s) [] []", B(sl.id), Bool(ex)))
+			fmt.Sprintf("IO (OValue %s) %s [] [] %s", B(sl.id), res, B(rt.ID())),
+			fmt.Sprintf("IO (OExists %s) (RBool %s) [] [] %s", B(sl.id), Bool(ex), B(rt.ID())))
 	}
 }
 
@@ -1089,7 +1222,7 @@ func (ir *isoRun) owner(st store.Store, g int, d isoDesc) {
 			}
 			checkBC("vetoed Update", true)
 			if sample {
-				sl.sample = append(sl.sample, fmt.Sprintf("IO (OUpdate %s %s %s) %s %s %s", B(sl.id), B(want), envVeto1, res, cbTerms(sl.cbs), bcTerms(sl.bcs)))
+				sl.sample = append(sl.sample, fmt.Sprintf("IO (OUpdate %s %s %s) %s %s %s %s", B(sl.id), B(want), envVeto1, res, cbTerms(sl.cbs), bcTerms(sl.bcs), B(w.ID())))
 			}
 		} else if unencRound := r.Chance(4); unencRound && ir.cd.Store == "badger" && sl.last != nil {
 			// an Update with a value of the right type that the encoder rejects
@@ -1118,7 +1251,7 @@ func (ir *isoRun) owner(st store.Store, g int, d isoDesc) {
 			}
 			checkBC("unencodable Update", true)
 			if sample {
-				sl.sample = append(sl.sample, fmt.Sprintf("IO (OUpdate %s %s %s) %s %s %s", B(sl.id), B(want), envUnenc, res, cbTerms(sl.cbs), bcTerms(sl.bcs)))
+				sl.sample = append(sl.sample, fmt.Sprintf("IO (OUpdate %s %s %s) %s %s %s %s", B(sl.id), B(want), envUnenc, res, cbTerms(sl.cbs), bcTerms(sl.bcs), B(w.ID())))
 			}
 		} else if absentRound := r.Chance(30); absentRound && sl.last == nil {
 			// the id does not exist: Delete and Update must say so and change nothing
@@ -1146,7 +1279,7 @@ func (ir *isoRun) owner(st store.Store, g int, d isoDesc) {
 				ir.fail(sl.id, round, "failed Update ran OnChange", "0", strconv.Itoa(len(sl.cbs)))
 			}
 			if sample {
-				sl.sample = append(sl.sample, fmt.Sprintf("IO %s %s %s %s", term, res, cbTerms(sl.cbs), bcTerms(sl.bcs)))
+				sl.sample = append(sl.sample, fmt.Sprintf("IO %s %s %s %s %s", term, res, cbTerms(sl.cbs), bcTerms(sl.bcs), B(w.ID())))
 			}
 		} else if sl.last != nil && r.Chance(3) {
 			// delete
@@ -1165,7 +1298,7 @@ func (ir *isoRun) owner(st store.Store, g int, d isoDesc) {
 			_ = before
 			checkBC("Delete", true)
 			if sample {
-				sl.sample = append(sl.sample, fmt.Sprintf("IO (ODelete %s %s) %s %s %s", B(sl.id), envNone, res, cbTerms(sl.cbs), bcTerms(sl.bcs)))
+				sl.sample = append(sl.sample, fmt.Sprintf("IO (ODelete %s %s) %s %s %s %s", B(sl.id), envNone, res, cbTerms(sl.cbs), bcTerms(sl.bcs), B(w.ID())))
 			}
 		} else {
 			pads := isoPadAll
@@ -1197,13 +1330,21 @@ func (ir *isoRun) owner(st store.Store, g int, d isoDesc) {
 			}
 			checkBC(kind, true)
 			if sample {
-				sl.sample = append(sl.sample, fmt.Sprintf("IO (O%s %s %s %s) %s %s %s", kind, B(sl.id), B(want), envNone, res, cbTerms(sl.cbs), bcTerms(sl.bcs)))
+				sl.sample = append(sl.sample, fmt.Sprintf("IO (O%s %s %s %s) %s %s %s %s", kind, B(sl.id), B(want), envNone, res, cbTerms(sl.cbs), bcTerms(sl.bcs), B(w.ID())))
 			}
 		}
 		sl.pending = nil
 		ir.readBack(sl, w, "inside the write transaction", sample)
+		if got := w.ID(); got != sl.id {
+			ir.fail(sl.id, round, "ID() of the write transaction is not the id it was opened with", sl.id, got)
+		}
 		if err := w.Close(); err != nil {
 			ir.fail(sl.id, round, "Close failed", "nil", err.Error())
+		}
+		if round%16 == 0 {
+			if err := w.Close(); err == nil {
+				ir.fail(sl.id, round, "second Close returned nil", "error", "nil")
+			}
 		}
 		rt := st.Read(sl.id)
 		ir.readBack(sl, rt, "in a read transaction after the commit", sample)
@@ -1275,6 +1416,41 @@ func runIsolation(cd caseDesc) result {
 		sc.reopen()
 		finalCheck(mk(), "after reopening the database")
 		res.dist["iso_reopened"]++
+		// a database-level error (the database is now read-only): every mutation returns the error,
+		// changes nothing and runs no OnChange; reads still return the committed values
+		sc.reopenReadOnly()
+		ro := mk()
+		me := goid()
+		for g := 0; g < d.Goroutines; g++ {
+			sl := ir.slots[fmt.Sprintf("w%02d", g)]
+			sl.gid, sl.round = me, d.Rounds+1
+			v := isoValue(cd.Typed, "ro", g, 8)
+			want := canon(v)
+			w := ro.Write(sl.id)
+			try := func(what string, f func() error) {
+				sl.cbs, sl.bcs = nil, nil
+				err := f()
+				if err == nil || errors.Is(err, store.ErrNotFound) || errors.Is(err, store.ErrDuplicate) {
+					ir.fail(sl.id, sl.round, what+" on a read-only database did not return the database error", "error", fmt.Sprint(err))
+				}
+				if len(sl.cbs) != 0 {
+					ir.fail(sl.id, sl.round, "failed Update ran OnChange", "0", strconv.Itoa(len(sl.cbs)))
+				}
+				res.dist["iso_readonly_ops"]++
+			}
+			if sl.last != nil {
+				sl.pending = &want
+				try("Update", func() error { return w.Update(v) })
+				sl.pending = nil
+				try("Delete", w.Delete)
+			} else {
+				sl.pending = &want
+				try("Create", func() error { return w.Create(v) })
+			}
+			sl.pending = nil
+			ir.readBack(sl, w, "on the read-only database after failed mutations", false)
+			w.Close()
+		}
 	}
 	var ops []string
 	for g := 0; g < d.Goroutines; g++ {
@@ -1408,7 +1584,7 @@ func genConfig(r *Rng) caseDesc {
 		genObservers(r, &cd)
 		return cd
 	}
-	cd := caseDesc{Store: "mock", NewID: r.Bool()}
+	cd := caseDesc{Store: "mock", NewID: r.Bool(), Hooks: r.Chance(25)}
 	genObservers(r, &cd)
 	return cd
 }
@@ -1621,7 +1797,9 @@ func main() {
 			panic(err)
 		}
 		cd.Order = nil
-		if cd.Isolation != nil {
+		if cd.Foreign != "" {
+			add("replay_foreign", runForeign(cd, sc))
+		} else if cd.Isolation != nil {
 			add("replay_isolation", runIsolation(cd))
 		} else if len(cd.Goroutines) > 0 {
 			n := 20
@@ -1657,6 +1835,11 @@ func main() {
 		for _, cfg := range exCfgs {
 			for _, cd := range genExhaustive(cfg, exLen) {
 				add("exhaustive", runSequential(cd, sc))
+			}
+		}
+		for _, f := range []string{"{\"n\":", "\x00\x01", "[1,2]", "\"str\""} {
+			for _, typed := range []bool{true, false} {
+				add("foreign_entry", runForeign(caseDesc{Store: "badger", Typed: typed, Prefix: map[bool]string{true: "p", false: ""}[typed], BeforeChange: true, Listeners: 1, Foreign: f}, sc))
 			}
 		}
 		for _, cd := range genDirectedUnenc() {
